@@ -165,17 +165,22 @@ def wScan : Tm := .node .scan [.leaf (.table 1), .node .list [.col 1 0, .col 1 1
 def wAgg : Tm := .node .hashagg [.node .list [wK], .node .list [], wScan]
 def wEs : Tm := .node .list [wK]
 
-/-- FULL statement (what C17 needs of the rule): pushing a projection below ORDER BY keeps
-accepted plans accepted. -/
+/-- What C17 needs of the rule: pushing a projection below ORDER BY keeps accepted plans accepted. -/
 def ApplyProjOrderKeepsOk : Prop :=
   ∀ es ks c : Tm, check (.node .proj [es, .node .order [ks, c]]) = .ok → check (applyProjOrder es ks c) = .ok
 
 theorem wPlan_ok : check (.node .proj [wEs, .node .order [wEs, wAgg]]) = .ok := by decide
 
-theorem applyProjOrder_unsound : ¬ ApplyProjOrderKeepsOk := by
+/-- Before `fix:` 5c889c5 the rule broke the witness plan (the recorded finding
+`plan:apply_proj-prunes-computed-key-column`) … -/
+theorem applyProjOrderOld_unsound :
+    ¬ ∀ es ks c : Tm, check (.node .proj [es, .node .order [ks, c]]) = .ok → check (applyProjOrderOld es ks c) = .ok := by
   intro h
   have := h wEs wEs wAgg wPlan_ok
   revert this
   decide
+
+/-- … and the repaired applier keeps it executable. -/
+theorem applyProjOrder_regression : check (applyProjOrder wEs wEs wAgg) = .ok := by decide
 
 end RlModel.Wf
